@@ -268,7 +268,36 @@ func runC20(c *Ctx) {
 		// passed to the local listen closure, excluding conf.RequestedPort
 		var ports []ssa.Value
 		var portAt []ssa.Instruction
-		for _, f := range w.helpersOf(fn) {
+		body := w.reachableHelpers(fn)
+		inBody := map[*ssa.Function]bool{}
+		for _, f := range body {
+			inBody[f] = true
+		}
+		var collect func(arg ssa.Value, at ssa.Instruction, d int)
+		collect = func(arg ssa.Value, at ssa.Instruction, d int) {
+			// skip the requested-port path
+			if _, f2, isL := fieldLoad(stripIntConv(arg)); isL && f2.Name() == "RequestedPort" {
+				return
+			}
+			if p, isP := stripIntConv(arg).(*ssa.Parameter); isP {
+				// the port parameter of a named helper (listenPacket(network, port)): the
+				// arguments at its call sites inside this generator method; a literal's own
+				// parameter is covered by the call of the literal
+				if h := p.Parent(); h.Parent() == nil && h != fn && inBody[h] && d < 3 {
+					for _, cs := range w.callsTo(h) {
+						if inBody[cs.Parent()] {
+							if i := paramIndex(p); i >= 0 && i < len(cs.Common().Args) {
+								collect(cs.Common().Args[i], cs, d+1)
+							}
+						}
+					}
+				}
+				return
+			}
+			ports = append(ports, arg)
+			portAt = append(portAt, at)
+		}
+		for _, f := range body {
 			w.eachInstr(f, func(in ssa.Instruction) {
 				call, ok := in.(*ssa.Call)
 				if !ok {
@@ -286,15 +315,7 @@ func runC20(c *Ctx) {
 				if arg == nil {
 					return
 				}
-				// skip the requested-port path and the closure's own parameter
-				if _, f2, isL := fieldLoad(stripIntConv(arg)); isL && f2.Name() == "RequestedPort" {
-					return
-				}
-				if _, isP := stripIntConv(arg).(*ssa.Parameter); isP {
-					return
-				}
-				ports = append(ports, arg)
-				portAt = append(portAt, in)
+				collect(arg, in, 0)
 			})
 		}
 		if len(ports) == 0 {
@@ -337,18 +358,37 @@ func runC20(c *Ctx) {
 			fn := w.Func("turn", gen, mn)
 			c.Anchor("C20.2", gen+"."+mn)
 			c.Anchor("C20.3", gen+"."+mn)
-			for _, f := range w.helpersOf(fn) {
-				if f.Signature.Results().Len() != 3 {
+			body := w.reachableHelpers(fn)
+			inBody := map[*ssa.Function]bool{}
+			for _, f := range body {
+				inBody[f] = true
+			}
+			// forwards: the socket is a result of the listen closure or of a helper of this
+			// method that returns (socket, address, …, error) itself: checked there
+			forwards := func(sock ssa.Value) bool {
+				sc, _ := callOf(sock)
+				if sc == nil {
+					return false
+				}
+				if isClosureCall(w, sc) {
+					return true
+				}
+				h := sc.Call.StaticCallee()
+				return h != nil && inBody[h] && h != fn && sockAddrErrResults(h)
+			}
+			for _, f := range body {
+				if !sockAddrErrResults(f) {
 					continue
 				}
+				nRes := f.Signature.Results().Len()
 				for _, r := range returnsOf(f) {
 					sock := w.resolveLoad(r.Results[0])
 					addr := w.resolveLoad(r.Results[1])
-					errv := w.resolveLoad(r.Results[2])
+					errv := w.resolveLoad(r.Results[nRes-1])
 					if !isNilConst(errv) {
 						// forwarded result of the inner listen closure: checked inside the closure
-						if sc, _ := callOf(sock); sc != nil && isClosureCall(w, sc) {
-							c.Triv("C20.3", fname(f), "error return", w.instrPos(r), "forwards the results of the listen closure")
+						if forwards(sock) {
+							c.Triv("C20.3", fname(f), "error return", w.instrPos(r), "forwards the results of the listen closure / helper")
 							continue
 						}
 						if isNilConst(stripIface(sock)) {
@@ -358,8 +398,8 @@ func runC20(c *Ctx) {
 						}
 						continue
 					}
-					if sc, _ := callOf(sock); sc != nil && isClosureCall(w, sc) {
-						c.Triv("C20.2", fname(f), "success return", w.instrPos(r), "forwards the results of the listen closure")
+					if forwards(sock) {
+						c.Triv("C20.2", fname(f), "success return", w.instrPos(r), "forwards the results of the listen closure / helper")
 						continue
 					}
 					// addr provenance
@@ -419,7 +459,7 @@ func runC20(c *Ctx) {
 			}
 			// requested port is passed unchanged
 			okReq := false
-			for _, f := range w.helpersOf(fn) {
+			for _, f := range body {
 				w.eachInstr(f, func(in ssa.Instruction) {
 					call, ok := in.(*ssa.Call)
 					if !ok {
@@ -433,6 +473,20 @@ func runC20(c *Ctx) {
 					if isClosureCall(w, call) && len(call.Call.Args) == 1 {
 						if _, f2, isL := fieldLoad(call.Call.Args[0]); isL && f2.Name() == "RequestedPort" {
 							okReq = true
+						}
+					}
+					// handed to a helper of this method whose parameter is what gets formatted
+					if h := call.Call.StaticCallee(); h != nil && inBody[h] && h.Parent() == nil && h != fn {
+						for i, a := range call.Call.Args {
+							if _, f2, isL := fieldLoad(stripIntConv(a)); isL && f2.Name() == "RequestedPort" && i < len(h.Params) {
+								w.eachInstr(h, func(in2 ssa.Instruction) {
+									if c2, ok := in2.(*ssa.Call); ok {
+										if a0 := decimalFormatArg(c2); a0 != nil && rawParamOf(stripIntConv(a0), h) == h.Params[i] {
+											okReq = true
+										}
+									}
+								})
+							}
 						}
 					}
 				})
@@ -541,4 +595,14 @@ func decimalFormatArg(call *ssa.Call) ssa.Value {
 		}
 	}
 	return nil
+}
+
+// sockAddrErrResults: the function returns (socket, address, …, error): at least three
+// results, the second a net.Addr, the last an error.
+func sockAddrErrResults(f *ssa.Function) bool {
+	res := f.Signature.Results()
+	if res.Len() < 3 {
+		return false
+	}
+	return res.At(res.Len()-1).Type().String() == "error" && res.At(1).Type().String() == "net.Addr"
 }
